@@ -713,7 +713,14 @@ std::string EdgeEnv::LookupVariable(StringPiece var) {
   // In practice, variables defined on rules never use another rule variable.
   // For performance, only start checking for cycles after the first lookup.
   recursive_ = true;
-  std::string result = edge_->env_->LookupWithFallback(var, eval, this);
+  // Lookup order: build-level bindings, then the rule, then the enclosing
+  // scopes.  A build statement without bindings shares the enclosing scope's
+  // BindingEnv, whose own variables must not take precedence over the rule.
+  std::string result;
+  if (edge_->env_is_enclosing_scope_)
+    result = eval ? eval->Evaluate(this) : edge_->env_->LookupVariable(var);
+  else
+    result = edge_->env_->LookupWithFallback(var, eval, this);
   if (record_varname)
     lookups_.pop_back();
   return result;
